@@ -280,9 +280,14 @@ def _shell_builds(run, P):
         if len(calls) < 2:
             run.incomplete("IDX/shell-builds", c, where(g), f"{len(calls)} shell build(s) found, expected the unprojected and the projected one")
             continue
+        callee_params = P.func(f"{GEO}:_build_polygon_shells").params()
+
         def sig_(cl):
-            pos = [norm(a) for a in cl.args]
-            kw = {k.arg: norm(k.value) for k in cl.keywords}
+            # bound by the callee's parameters: the first six (nodes, connectivity, counts) are compared as "positional", the rest by name, however they were passed
+            b = dict(zip(callee_params, [norm(a) for a in cl.args]))
+            b.update({k.arg: norm(k.value) for k in cl.keywords if k.arg})
+            pos = [b.get(p_) for p_ in callee_params[:6] if p_ in b]
+            kw = {p_: v for p_, v in b.items() if p_ not in callee_params[:6]}
             return pos, kw
         (p1, k1), (p2, k2) = sig_(calls[0]), sig_(calls[1])
         probs = []
